@@ -67,4 +67,7 @@ func init() {
 			{recv: "BucketHeader", name: "readFrom"},
 		},
 		externs: []string{"io.SectionReader.ReadAt:out0", "io.ReaderAt.ReadAt:out0"}, hoist: true})
+	registerGoLite(glGroup{id: "golitebt", out: "GoLiteBT.v", pkgDir: "blocktimeindex",
+		funcs:   []glFunc{{recv: "Index", name: "Get"}, {recv: "Index", name: "Set"}, {name: "blocktimeToBytes"}},
+		externs: []string{"NewErrSlotOutOfRange"}})
 }
